@@ -1,0 +1,71 @@
+//! Verification hook (only with `--cfg excsn_fibre_verif`): named yield points placed
+//! *between* the critical sections of the loader single-flight protocol, so that a check
+//! can drive the real code under chosen thread interleavings. With no hook installed
+//! every function here is a no-op.
+
+use std::sync::Arc;
+use std::thread::ThreadId;
+
+/// Installed by a verification harness. All methods are called on the thread that
+/// reached the point.
+pub trait SchedHook: Send + Sync {
+  /// The calling thread is between two critical sections; `label` names the point.
+  fn point(&self, label: &'static str);
+  /// The calling thread is about to spawn a loader thread.
+  fn on_spawn(&self);
+  /// The calling thread is about to `thread::park()`.
+  fn before_park(&self);
+  /// `thread::park()` returned on the calling thread.
+  fn after_park(&self);
+  /// The calling thread is about to unpark `target`.
+  fn on_unpark(&self, target: ThreadId);
+}
+
+static HOOK: parking_lot::RwLock<Option<Arc<dyn SchedHook>>> = parking_lot::RwLock::new(None);
+
+pub fn install(hook: Arc<dyn SchedHook>) {
+  *HOOK.write() = Some(hook);
+}
+
+pub fn uninstall() {
+  *HOOK.write() = None;
+}
+
+fn current() -> Option<Arc<dyn SchedHook>> {
+  HOOK.read().clone()
+}
+
+#[inline]
+pub(crate) fn point(label: &'static str) {
+  if let Some(h) = current() {
+    h.point(label);
+  }
+}
+
+#[inline]
+pub(crate) fn on_spawn() {
+  if let Some(h) = current() {
+    h.on_spawn();
+  }
+}
+
+#[inline]
+pub(crate) fn before_park() {
+  if let Some(h) = current() {
+    h.before_park();
+  }
+}
+
+#[inline]
+pub(crate) fn after_park() {
+  if let Some(h) = current() {
+    h.after_park();
+  }
+}
+
+#[inline]
+pub(crate) fn on_unpark(target: ThreadId) {
+  if let Some(h) = current() {
+    h.on_unpark(target);
+  }
+}
